@@ -40,7 +40,8 @@ Inductive loc :=
 | ECWait | ECClose
 | DIdle | DEmit (v : val)
 | Junk (r : role) (v : val)      (* received a value of an impossible shape: keeps it, blocks *)
-| End (r : role).
+| End (r : role)
+| SrcStalled (rest : list (nat * bool)).   (* the input of the request generator stalls for ever *)
 
 Global Instance val_eq_dec : EqDecision val.
 Proof. solve_decision. Defined.
@@ -71,7 +72,10 @@ Notation K l := (fun _ : resp val => l).
 Definition beh (l : loc) : pend val loc nat ev :=
   match l with
   (* a request generator: writeRequest selects against ctx.Done; close(out) is deferred *)
-  | Src ((id, bad) :: r) => PSel [(GSend c_in (VReq id bad), K (Src r)); (GDone, K SrcClose)]
+  (* on ctx.Done writeRequest just returns: the generator drops the request and goes on with its input;
+     the input itself (a file, a pipe, stdin) may stall for ever at any point *)
+  | Src ((id, bad) :: r) => PSel [(GSend c_in (VReq id bad), K (Src r)); (GDone, K (Src r));
+                                  (GDefault, K (SrcStalled ((id, bad) :: r)))]
   | Src [] => PClose c_in (End RSrc)
   | SrcClose => PClose c_in (End RSrc)
   (* packetGenerator.Packets goroutine *)
@@ -119,11 +123,12 @@ Definition beh (l : loc) : pend val loc nat ev :=
   | DEmit v => PCall (fun _ => [EErrOut v]) (fun _ => DIdle)
   | Junk _ _ => PSel []
   | End _ => PEnd
+  | SrcStalled _ => PSel []
   end.
 
 Definition role_of (l : loc) : role :=
   match l with
-  | Src _ | SrcClose => RSrc
+  | Src _ | SrcClose | SrcStalled _ => RSrc
   | WIdle i | WFill i _ | WSend i _ | WSendErr i _ | WClose i => RWorker i
   | MIdle i | MSend i _ => RMux i
   | CWait | CClose => RCloser
@@ -168,7 +173,7 @@ Definition tok_ev (e : ev) : gmultiset nat :=
 Definition ids_of (reqs : list (nat * bool)) : gmultiset nat := list_to_set_disj (fst <$> reqs).
 Definition weight (l : loc) : gmultiset nat :=
   match l with
-  | Src rest => ids_of rest
+  | Src rest | SrcStalled rest => ids_of rest
   | WFill _ id | WSend _ id | WSendErr _ id | SErr id | SWrite id => {[+ id +]}
   | MSend _ v | ESend _ v | DEmit v | Junk _ v => tok_val v
   | _ => ∅
